@@ -339,8 +339,23 @@ Section Ranges.
     split; [apply (ts_wf L ts Hts)|apply (ts_lines L ts Hts)]; apply Hi; left; reflexivity.
   Qed.
 
-  Lemma diag_at_ok e m : BodyOK e -> DiagOK (diag_at e m).
-  Proof. intro H. unfold DiagOK, diag_at. cbn [drange]. apply first_range_ok. exact H. Qed.
+  Lemma last_In (t : tok) l : In (last l t) (t :: l).
+  Proof.
+    assert (forall l (d : tok), l = [] \/ In (last l d) l) as H.
+    { clear. induction l as [|x l IH]; intro d; [left; reflexivity|]. right.
+      destruct l as [|y l']; [left; reflexivity|]. change (last (x :: y :: l') d) with (last (y :: l') d).
+      destruct (IH d) as [E|Hin]; [discriminate|right; exact Hin]. }
+    destruct (H l t) as [->|Hin]; [left; reflexivity|right; exact Hin].
+  Qed.
+
+  (* the iteration input of a recovering loop is never empty: the diagnostic sits on a token *)
+  Lemma diag_at_ok t0 i e m : BodyOK (t0 :: i) -> BodyOK e -> DiagOK (diag_at (t0 :: i) e m).
+  Proof.
+    intros Hi He. unfold DiagOK, diag_at, err_range. cbn [drange]. destruct e as [|t e].
+    - cbn [last_tok_range]. destruct Hi as [_ Hi].
+      split; [apply (ts_wf L ts Hts)|apply (ts_lines L ts Hts)]; apply Hi; apply last_In.
+    - destruct He as [_ He]. split; [apply (ts_wf L ts Hts)|apply (ts_lines L ts Hts)]; apply He; left; reflexivity.
+  Qed.
 
   Lemma tok_range_ok t : T t -> DiagOK (mkDiag (trange t) []) .
   Proof. intro H. split; cbn [drange]; [apply (ts_wf L ts Hts)|apply (ts_lines L ts Hts)]; exact H. Qed.
@@ -356,13 +371,14 @@ Section Ranges.
     - unfold lines_le, tstart, tend in *. cbn [rstart rend]. tauto.
   Qed.
 
-  Lemma sep_diag_ok i e m : BodyOK i -> Suffix e i ->
-    DiagOK (mkDiag (new_range (first_range i) (match e with t :: _ => trange t | [] => first_range i end)) m).
+  Lemma sep_diag_ok prev i e m : T prev -> BodyOK i -> Suffix e i ->
+    DiagOK (mkDiag (new_range (range_or i (trange prev)) (range_or e (range_or i (trange prev)))) m).
   Proof.
-    intros Hb Hs. unfold DiagOK. cbn [drange]. unfold new_range.
+    intros Hprev Hb Hs. unfold DiagOK. cbn [drange]. unfold new_range.
     destruct i as [|t0 i].
-    - destruct Hs as [p Hp]. destruct p; [|discriminate]. cbn [app] in Hp. subst e. cbn [first_range]. apply range_default_ok.
-    - cbn [first_range]. destruct (BodyOK_cons _ _ Hb) as (Ht0 & _ & _).
+    - destruct Hs as [p Hp]. destruct p; [|discriminate]. cbn [app] in Hp. subst e. cbn [range_or].
+      apply (toks_range_ok prev prev); auto. lia.
+    - cbn [range_or]. destruct (BodyOK_cons _ _ Hb) as (Ht0 & _ & _).
       destruct e as [|t e].
       + apply (toks_range_ok t0 t0); auto. lia.
       + apply (toks_range_ok t0 t); auto.
